@@ -317,6 +317,9 @@ def analyse_buffer(rel: str, cls: ast.ClassDef, btxt: str) -> Optional[BufReport
     try:
         if not advs and not drops:
             fn, h = handouts[0]
+            odd = [x for x in sites if x.kind == 'replace' and not _fresh_value(x.value)]
+            if odd:
+                raise AnalysisError(f'{where}.{odd[0].fn.name}: `{pf.nsrc(odd[0].st)}` may be how {btxt} is consumed: not analysed')
             r.checks.append(BufCheck('consumption', False, f'`{pf.nsrc(h)}` hands out bytes of {btxt} but no statement of the read path consumes them (no `{btxt} = {btxt}[k:]`, no position advance): '
                                      f'every read returns the same bytes again', h.lineno))
             return r
@@ -324,6 +327,9 @@ def analyse_buffer(rel: str, cls: ast.ClassDef, btxt: str) -> Optional[BufReport
             mixed = []
             for d in drops:
                 is_compaction = lin(d.amount, d.fn) == P and any(s.kind in ('reset', 'rebase') and s.block is d.block for s in sites)
+                if not is_compaction and lin(d.amount, d.fn) == P and _elsewhere(d.fn, sites, ('reset', 'rebase'), fns):
+                    # the position is reset in another statement list of the method / in a method it calls: how the two pair up is not analysed
+                    raise AnalysisError(f'{where}.{d.fn.name}: `{pf.nsrc(d.st)}` drops the consumed prefix and {ptxt} is reset elsewhere in the method: pairing not analysed')
                 if not is_compaction:
                     mixed.append(d)
             if mixed:
@@ -541,9 +547,13 @@ def analyse_buffer(rel: str, cls: ast.ClassDef, btxt: str) -> Optional[BufReport
                         (ctor and len(v.args) == 1 and isinstance(v.args[0], ast.Constant) and not v.args[0].value)
                     if empty:
                         raise AnalysisError(f'{where}.{reps[0].fn.name}: `{pf.nsrc(reps[0].st)}` empties the buffer without resetting {ptxt}: harmless only if the stream is finished - not analysed')
+                    if _elsewhere(reps[0].fn, [x for x in sites if x.block is not s.block], ('reset', 'rebase'), fns):
+                        raise AnalysisError(f'{where}.{reps[0].fn.name}: `{pf.nsrc(reps[0].st)}` replaces {btxt}; {ptxt} is reset in another statement list of the method or in a method it calls: pairing not analysed')
                     bad_r = bad_r or (reps[0].st, f'`{pf.nsrc(reps[0].st)}` replaces {btxt} with new data but {ptxt} keeps the position reached in the old buffer: '
                                                    f'the first {ptxt} bytes of the new data are never delivered')
                 elif resets and not reps and not compacts:
+                    if _elsewhere(resets[0].fn, [x for x in sites if x.block is not s.block], ('replace', 'drop'), fns):
+                        raise AnalysisError(f'{where}.{resets[0].fn.name}: `{pf.nsrc(resets[0].st)}` rewinds {ptxt}; {btxt} is replaced / compacted in another statement list of the method or in a method it calls: pairing not analysed')
                     bad_r = bad_r or (resets[0].st, f'`{pf.nsrc(resets[0].st)}` rewinds {ptxt} while {btxt} keeps its content: bytes already delivered are delivered again')
             if bad_r:
                 r.checks.append(BufCheck('reset pairing', False, bad_r[1], bad_r[0].lineno))
@@ -553,6 +563,32 @@ def analyse_buffer(rel: str, cls: ast.ClassDef, btxt: str) -> Optional[BufReport
         r.declined.append(str(_e))
 
     return r
+
+
+def _fresh_value(v: Optional[ast.AST]) -> bool:
+    """A value that is new data, not a part of the old buffer: a literal, bytes()/bytearray(), an awaited read / next chunk."""
+    if v is None:
+        return False
+    v = _strip(v)
+    if isinstance(v, ast.Constant):
+        return True
+    if isinstance(v, ast.Call) and isinstance(v.func, ast.Name) and v.func.id in _WRAPPERS and not v.args:
+        return True
+    if isinstance(v, ast.Call) and isinstance(v.func, ast.Attribute) and not (isinstance(v.func.value, ast.Name) and v.func.value.id == 'self'):
+        return True  # a method of another object (stream.read(..), it.__anext__()): data from outside
+    if isinstance(v, ast.Call) and isinstance(v.func, ast.Name) and v.func.id in ('anext', 'next'):
+        return True
+    return False
+
+
+def _elsewhere(fn: pf.FuncDef, sites: Sequence['_Site'], kinds: Tuple[str, ...], fns: Sequence[pf.FuncDef]) -> bool:
+    """Does `fn` hold a site of one of `kinds` among `sites`, or call (as self.<m>) a read-path method that holds one?"""
+    if any(x.kind in kinds and x.fn is fn for x in sites):
+        return True
+    holders = {x.fn.name for x in sites if x.kind in kinds}
+    called = {c.func.attr for c in pf.calls_in(fn, into_nested_defs=True) if isinstance(c.func, ast.Attribute) and isinstance(c.func.value, ast.Name) and c.func.value.id == 'self'}
+    called |= {x.attr for x in ast.walk(fn) if isinstance(x, ast.Attribute) and isinstance(x.value, ast.Name) and x.value.id == 'self' and any(f.name == x.attr for f in fns)}
+    return bool(holders & called)
 
 
 def _binds(st: ast.stmt, name: str) -> bool:
@@ -1993,7 +2029,7 @@ class Delivery:
 # (a re-open callback) is executed afterwards with fresh symbols for its parameters: its events are RE-REQUESTS.
 # Nothing is run; loops around requests and unresolvable calls that receive tracked values are declined.
 
-from . import strparts  # noqa: E402
+from . import c23norm, strparts  # noqa: E402
 
 
 class RxE:
@@ -2333,6 +2369,13 @@ class RangeExec:
         """Side-effect free evaluation (calls other than dict / str helpers give an unknown value)."""
         if isinstance(e, ast.Await):
             return self.value(e.value, env, ref, w)
+        if (isinstance(e, ast.Call) and isinstance(e.func, ast.Attribute) and e.func.attr in ('format', 'join') and isinstance(e.func.value, ast.Constant)) \
+                or (isinstance(e, ast.BinOp) and isinstance(e.op, ast.Mod) and isinstance(e.left, ast.Constant) and isinstance(e.left.value, str)):
+            # '<lit>'.format(..) / '<lit>' % (..) / ''.join([..]): one spelling of a string template (engines/c23norm)
+            e2 = c23norm.strnorm(e)
+            if e2 is not e and not (isinstance(e2, ast.Call) and isinstance(e2.func, ast.Attribute) and e2.func.attr in ('format', 'join')) \
+                    and not (isinstance(e2, ast.BinOp) and isinstance(e2.op, ast.Mod)):
+                return self.value(e2, env, ref, w)
         if isinstance(e, ast.Constant):
             if e.value is None:
                 return RX_NONE
